@@ -13,6 +13,7 @@ pub mod entries;
 pub mod c14;
 pub mod c15;
 pub mod c16;
+pub mod c17;
 pub mod c19;
 
 use crate::engine::{Run, Verdict};
@@ -35,6 +36,7 @@ pub fn registry(id: &str) -> Option<(RunFn, ReplayFn)> {
         "C14" => Some((c14::run, c14::replay)),
         "C15" => Some((c15::run, c15::replay)),
         "C16" => Some((c16::run, c16::replay)),
+        "C17" => Some((c17::run, c17::replay)),
         "C19" => Some((c19::run, c19::replay)),
         _ => None,
     }
